@@ -5,30 +5,19 @@ pinned tree's code; the order is the derived lexicographic `Ord` of `HybridTimes
 -/
 import P2.Model.HybridTs
 import P2.Model.AddrBook
+import P2.Lemmas.HybridTs
+import P2.Extracted.C18
 
 namespace P2.C18
 open P2.HybridTs P2.AddrBook
 
-/-! ### the order is a strict total order (what "strictly greater" means) -/
+/-! ### the order is a strict total order (what "strictly greater" means);
+    the single facts are in `P2/Lemmas/HybridTs.lean` -/
 
-theorem lt_iff (a b : HTs) :
-    a < b ↔ (a.wall < b.wall ∨ (a.wall = b.wall ∧ a.logical < b.logical)) := Iff.rfl
-
-theorem lt_irrefl (a : HTs) : ¬ a < a := by
-  rw [lt_iff]; omega
-
-theorem lt_trans {a b c : HTs} (h1 : a < b) (h2 : b < c) : a < c := by
-  rw [lt_iff] at *; omega
-
-theorem lt_asymm {a b : HTs} (h : a < b) : ¬ b < a := by
-  rw [lt_iff] at *; omega
-
-theorem lt_trichotomy (a b : HTs) : a < b ∨ a = b ∨ b < a := by
-  rcases a with ⟨aw, al⟩; rcases b with ⟨bw, bl⟩
-  simp only [lt_iff, HTs.mk.injEq]; omega
-
-theorem ne_of_lt {a b : HTs} (h : a < b) : a ≠ b := by
-  intro e; subst e; exact lt_irrefl a h
+theorem c18_order_strict_total :
+    (∀ a : HTs, ¬ a < a) ∧ (∀ a b c : HTs, a < b → b < c → a < c) ∧
+    (∀ a b : HTs, a < b ∨ a = b ∨ b < a) :=
+  ⟨lt_irrefl, fun _ _ _ h1 h2 => lt_trans h1 h2, lt_trichotomy⟩
 
 /-! ### C18, first sentence -/
 
@@ -80,6 +69,15 @@ theorem c18_wall_ge_now (t : HTs) (now : Nat) : now ≤ (increment t now).wall :
   by_cases h : now ≤ t.wall
   · simp only [increment, h, if_true]
   · simp only [increment, h, if_false]; omega
+
+/-- Tie to the source text: the model's `increment` is the Lean term that `rs2lean` regenerates from
+    the current body of `HybridTimestamp::increment` on every run (an edit of the Rust function
+    changes the generated term and breaks this obligation before any input is generated). -/
+theorem c18_model_is_source (t : HTs) (now : Nat) :
+    ((increment t now).wall, (increment t now).logical)
+      = P2.Extracted.C18.hybridIncrement t.wall t.logical now := by
+  unfold increment P2.Extracted.C18.hybridIncrement
+  by_cases h : now ≤ t.wall <;> simp [h]
 
 /-! ### C18 over histories: chains of increments -/
 
